@@ -606,6 +606,25 @@ def _lower_enumerate_index(fn: ast.AST) -> bool:
     return changed
 
 
+def _const_index_reads(fn, stmts, i: int, name: str, loads) -> int:
+    """n >= 2 when every read of `name` is `name[k]` with an int literal k, the ks are exactly 0..n-1 and all reads stand in
+    the statements after stmts[i] of the same block; else 0"""
+    uses = loads.get(name, [])
+    if not uses:
+        return 0
+    after = {id(x) for b in stmts[i + 1:] for x in ast.walk(b)}
+    ks = set()
+    subs = {id(x.value): x for b in stmts[i + 1:] for x in ast.walk(b) if isinstance(x, ast.Subscript)}
+    for u in uses:
+        par = subs.get(id(u))
+        if id(u) not in after or par is None or not isinstance(par.ctx, ast.Load) or not (isinstance(par.slice, ast.Constant) and isinstance(par.slice.value, int)
+                                                                                           and not isinstance(par.slice.value, bool) and par.slice.value >= 0):
+            return 0
+        ks.add(par.slice.value)
+    n = len(ks)
+    return n if n >= 2 and ks == set(range(n)) else 0
+
+
 def _lower_statements(fn: ast.AST) -> List[str]:
     """Statement forms with one meaning written one way:
     `del xs[k]` (k an int literal, xs a name) is `xs.pop(k)`;
@@ -635,6 +654,31 @@ def _lower_statements(fn: ast.AST) -> List[str]:
                 store = ast.Assign(targets=[ast.Subscript(value=ast.Name(id=d_.id, ctx=ast.Load()), slice=k_, ctx=ast.Store())], value=v_)
                 stmts[i] = st = ast.fix_missing_locations(ast.copy_location(ast.If(test=test, body=[ast.copy_location(store, st)], orelse=[]), st))
                 notes.append("d.setdefault(k, v) as a statement written as the membership test and store")
+            if isinstance(st, ast.Assign) and len(st.targets) == 1 and isinstance(st.targets[0], ast.Subscript) and isinstance(st.targets[0].value, ast.Name) \
+                    and isinstance(st.targets[0].slice, (ast.Name, ast.Constant)) and isinstance(st.value, ast.BinOp) and isinstance(st.value.op, ast.Add) and isinstance(st.value.left, ast.Call) \
+                    and isinstance(st.value.left.func, ast.Attribute) and st.value.left.func.attr == "get" and isinstance(st.value.left.func.value, ast.Name) \
+                    and st.value.left.func.value.id == st.targets[0].value.id and len(st.value.left.args) == 2 and not st.value.left.keywords \
+                    and ast.dump(st.value.left.args[0]) == ast.dump(st.targets[0].slice) and isinstance(st.value.left.args[1], ast.Constant):
+                # d[k] = d.get(k, c) + e   is   if not k in d: d[k] = c;  d[k] += e
+                d_, k_, c_, e_ = st.targets[0].value.id, st.targets[0].slice, st.value.left.args[1], st.value.right
+                test = ast.UnaryOp(op=ast.Not(), operand=ast.Compare(left=k_, ops=[ast.In()], comparators=[ast.Name(id=d_, ctx=ast.Load())]))
+                init_ = ast.If(test=test, body=[ast.Assign(targets=[ast.Subscript(value=ast.Name(id=d_, ctx=ast.Load()), slice=k_, ctx=ast.Store())], value=c_)], orelse=[])
+                aug_ = ast.AugAssign(target=ast.Subscript(value=ast.Name(id=d_, ctx=ast.Load()), slice=k_, ctx=ast.Store()), op=ast.Add(), value=e_)
+                stmts[i:i + 1] = [ast.fix_missing_locations(ast.copy_location(init_, st)), ast.fix_missing_locations(ast.copy_location(aug_, st))]
+                notes.append("d[k] = d.get(k, c) + e written as the membership test, store and increment")
+                i += 2
+                continue
+            if isinstance(st, ast.Assign) and len(st.targets) == 1 and isinstance(st.targets[0], ast.Tuple) and any(isinstance(e, (ast.Tuple, ast.List)) for e in st.targets[0].elts) \
+                    and not any(isinstance(e, ast.Starred) for e in st.targets[0].elts):
+                # a, (b, c), d = E   is   a, t, d = E; b, c = t
+                extra = []
+                for k_, e in enumerate(st.targets[0].elts):
+                    if isinstance(e, (ast.Tuple, ast.List)):
+                        tmp = f"_nt{getattr(st, 'lineno', 0)}_{k_}"
+                        st.targets[0].elts[k_] = ast.copy_location(ast.Name(id=tmp, ctx=ast.Store()), e)
+                        extra.append(ast.fix_missing_locations(ast.copy_location(ast.Assign(targets=[e], value=ast.Name(id=tmp, ctx=ast.Load())), st)))
+                stmts[i + 1:i + 1] = extra
+                notes.append("nested unpacking target written as two assignments")
             if isinstance(st, ast.Delete) and len(st.targets) == 1 and isinstance(st.targets[0], ast.Subscript) and isinstance(st.targets[0].value, ast.Name) \
                     and isinstance(st.targets[0].slice, ast.Constant) and isinstance(st.targets[0].slice.value, int) and not isinstance(st.targets[0].slice.value, bool):
                 t = st.targets[0]
@@ -680,6 +724,24 @@ def _lower_statements(fn: ast.AST) -> List[str]:
                 st.targets = [ast.copy_location(ast.Tuple(elts=[ast.Name(id=x, ctx=ast.Store()) for x in names], ctx=ast.Store()), st.targets[0])]
                 del stmts[i + 1:i + 1 + len(names)]
                 notes.append("local read only through p[0], p[1], .. right after its binding written as a tuple assignment")
+            elif not nested and isinstance(st, ast.Assign) and len(st.targets) == 1 and isinstance(st.targets[0], ast.Name) and st.targets[0].id not in params \
+                    and len(stores.get(st.targets[0].id, [])) == 1 and isinstance(st.value, (ast.Subscript, ast.Call)) and _const_index_reads(fn, stmts, i, st.targets[0].id, loads):
+                # g = D[key]; .. g[0] .. g[1] .. g[2] ..   (g read only through these constant indices, all after the binding)   is   g0, g1, g2 = D[key]
+                pname = st.targets[0].id
+                n_ = _const_index_reads(fn, stmts, i, pname, loads)
+                names = [f"{pname}__i{k}" for k in range(n_)]
+
+                class R_(ast.NodeTransformer):
+                    def visit_Subscript(self, x):
+                        if isinstance(x.value, ast.Name) and x.value.id == pname and isinstance(x.slice, ast.Constant) and isinstance(x.ctx, ast.Load):
+                            return ast.copy_location(ast.Name(id=names[x.slice.value], ctx=ast.Load()), x)
+                        return self.generic_visit(x)
+
+                st.targets = [ast.copy_location(ast.Tuple(elts=[ast.Name(id=x, ctx=ast.Store()) for x in names], ctx=ast.Store()), st.targets[0])]
+                for j in range(i + 1, len(stmts)):
+                    stmts[j] = R_().visit(stmts[j])
+                loads.pop(pname, None)
+                notes.append("local read only through constant indices written as a tuple assignment")
             elif not nested and isinstance(st, ast.Assign) and len(st.targets) == 1 and isinstance(st.targets[0], ast.Name) and isinstance(st.value, ast.Call) and i + 1 < len(stmts):
                 x = st.targets[0].id
                 nx = stmts[i + 1]
@@ -748,9 +810,82 @@ def _lower_statements(fn: ast.AST) -> List[str]:
     return notes
 
 
+def _passthrough_properties(prog: Program) -> List[str]:
+    """A property `x` that only passes a private attribute through - getter `return self._x`, setter (optional guards that
+    raise, then) `self._x = value` - is the plain attribute it replaced: the property is dropped from the model and `._x` is
+    read as `.x` everywhere (only when no class outside the family of the defining class uses an attribute `_x`).
+    A setter or getter that converts, caches or computes is not touched (rules/objmodel.py judges those)."""
+    notes: List[str] = []
+    for m in list(prog.modules.values()):
+        for c in list(m.classes.values()):
+            getters, setters, deleters = {}, {}, {}
+            for node in c.node.body:
+                if not isinstance(node, ast.FunctionDef):
+                    continue
+                for d in node.decorator_list:
+                    if isinstance(d, ast.Name) and d.id == "property":
+                        getters[node.name] = node
+                    elif isinstance(d, ast.Attribute) and d.attr == "setter" and isinstance(d.value, ast.Name) and d.value.id == node.name:
+                        setters[node.name] = node
+                    elif isinstance(d, ast.Attribute) and d.attr == "deleter":
+                        deleters[node.name] = node
+            for name, g in getters.items():
+                body = [b for b in g.body if not (isinstance(b, ast.Expr) and isinstance(b.value, ast.Constant))]
+                if len(g.args.args) != 1 or len(body) != 1 or not isinstance(body[0], ast.Return):
+                    continue
+                selfn = g.args.args[0].arg
+                r = body[0].value
+                if not (isinstance(r, ast.Attribute) and isinstance(r.value, ast.Name) and r.value.id == selfn and r.attr != name):
+                    continue
+                backing = r.attr
+                st = setters.get(name)
+                if st is None:
+                    continue
+                if len(st.args.args) != 2:
+                    continue
+                s_self, s_val = st.args.args[0].arg, st.args.args[1].arg
+                sbody = [b for b in st.body if not (isinstance(b, ast.Expr) and isinstance(b.value, ast.Constant))]
+                if not sbody:
+                    continue
+                last = sbody[-1]
+                ok = isinstance(last, ast.Assign) and len(last.targets) == 1 and isinstance(last.targets[0], ast.Attribute) and isinstance(last.targets[0].value, ast.Name) \
+                    and last.targets[0].value.id == s_self and last.targets[0].attr == backing and isinstance(last.value, ast.Name) and last.value.id == s_val
+                ok = ok and all(isinstance(b, ast.If) and not b.orelse and all(isinstance(x, ast.Raise) for x in b.body) for b in sbody[:-1])
+                ok = ok and not any(isinstance(x, ast.Name) and x.id == s_val and isinstance(x.ctx, ast.Store) for b in sbody for x in ast.walk(b))
+                dl = deleters.get(name)
+                if dl is not None:
+                    dbody = [b for b in dl.body if not (isinstance(b, ast.Expr) and isinstance(b.value, ast.Constant))]
+                    ok = ok and len(dbody) == 1 and isinstance(dbody[0], ast.Delete) and len(dbody[0].targets) == 1 and isinstance(dbody[0].targets[0], ast.Attribute) \
+                        and dbody[0].targets[0].attr == backing
+                if not ok:
+                    continue
+                # the backing name must belong to this class family only
+                family = [k for mm in prog.modules.values() for k in mm.classes.values() if any(x is c for x in prog.mro(k)) or any(x is k for x in prog.mro(c))]
+                foreign = False
+                for mm in prog.modules.values():
+                    for k in mm.classes.values():
+                        if any(k is x for x in family):
+                            continue
+                        if any(isinstance(x, ast.Attribute) and x.attr == backing for x in ast.walk(k.node)):
+                            foreign = True
+                    for fn_ in mm.functions.values():
+                        pass
+                if foreign:
+                    continue
+                c.node.body = [b for b in c.node.body if b is not g and b is not st and b is not dl]
+                c.methods.pop(name, None)
+                for mm in prog.modules.values():
+                    for x in ast.walk(mm.tree):
+                        if isinstance(x, ast.Attribute) and x.attr == backing:
+                            x.attr = name
+                notes.append(f"{c.qualname}: pass-through property `{name}` over `{backing}` read as the plain attribute")
+    return notes
+
+
 def lower_program(prog: Program) -> None:
     counter = [0]
     log = []
+    log += _passthrough_properties(prog)
     for f in list(prog.all_functions(include_inlined=True)):
         if _lower_enumerate_index(f.node):
             log.append(f"{f.qualname}: sequence indexed by the enumerate counter (equal lengths asserted before the loop) zipped into the loop")
